@@ -6,7 +6,8 @@ use crate::sem::{self, SemCase};
 use serde_json::json;
 
 pub fn cfg() -> GenCfg {
-    GenCfg::default()
+    // half of C01's programs are compiled with the optimizer on: its stress patterns belong here too
+    GenCfg { opt_stress: true, ..GenCfg::default() }
 }
 
 pub fn run(ctx: &mut RunCtx) -> i32 {
